@@ -268,7 +268,7 @@ impl Campaign for C10 {
         let cfg = steer_cfg(rng);
         let mut g = Gen::new(rng, cfg);
         let prog = g.program();
-        let src = prog.top();
+        let src = g.print(&prog);
         let mut idents: Vec<String> = vec![];
         for i in g.used_idents.iter() {
             if !idents.contains(i) {
@@ -334,6 +334,42 @@ impl Campaign for C10 {
                     script.resolve.insert(symbol_value("c"), Answer::Provide(rep.clone()));
                     script.resolve_default = Some(Answer::Unique);
                     v.push(ScEval { basic, src: con.to_string(), input: Val::Unit, script, max_steps: 200 });
+                }
+            }
+            // workload A2: the right operand of `&&` / `||` is an un-bracketed operator expression (the
+            // operator sits directly under the logical node in the parse tree) over every pair of a
+            // small set of operand values, incl. a float that is not a number
+            let operands = [
+                Val::Unit,
+                Val::False,
+                Val::True,
+                Val::Int(0),
+                Val::Int(5),
+                Val::Float(2.5f64.to_bits()),
+                Val::Float(f64::NAN.to_bits()),
+                Val::Text("a".into()),
+                Val::Sym(symbol_value("ka")),
+                Val::List(vec![]),
+                Val::Type(1),
+            ];
+            let shapes = ["a < b", "a <= b", "a > b", "a >= b", "a == b", "a != b", "a #= b", "!!a", "??a", "a ^^ b", "a + b", "a = b", "a b", "--a", "a << b"];
+            for logical in ["&&", "||"] {
+                for c_true in [true, false] {
+                    for shape in shapes {
+                        for a in &operands {
+                            for b in &operands {
+                                if !shape.contains('b') && b != &Val::Unit {
+                                    continue;
+                                }
+                                let mut script = HostScript::default();
+                                script.resolve.insert(symbol_value("c"), if c_true { Answer::Unique } else { Answer::Decline });
+                                script.resolve.insert(symbol_value("a"), Answer::Provide(a.clone()));
+                                script.resolve.insert(symbol_value("b"), Answer::Provide(b.clone()));
+                                script.resolve_default = Some(Answer::Unique);
+                                v.push(ScEval { basic, src: format!("c {} {}", logical, shape), input: Val::Unit, script, max_steps: 200 });
+                            }
+                        }
+                    }
                 }
             }
             // a declining host: the identifier is unit, hence false
@@ -431,7 +467,8 @@ impl Campaign for C17 {
         let keyed = matches!(input, Val::Unit | Val::Pair(..) | Val::List(_));
         let mut g = Gen::new(rng, cfg);
         g.set_input_keyed(keyed);
-        let src = g.program().top();
+        let prog = g.program();
+        let src = g.print(&prog);
         let mut script = HostScript::default();
         // resolve none / some / all
         let mode = rng.below(4);
